@@ -27,6 +27,11 @@ struct Arg
     uint32_t u = 0;                 // thread-unique value: cross-talk changes a digest
     std::vector<Bytes> frames;      // inputs prepared before the concurrent phase (read-only afterwards)
     uint64_t digest = 0;
+    // hand-over pair (kinds deccont / consume): a decoder that has already returned packets, and those packets, now owned by
+    // another thread. Rebuilt before every execution (reprep) on the main thread, i.e. handed over before the threads start.
+    std::unique_ptr<Decoder> dec;
+    std::vector<std::shared_ptr<Packet>> held;
+    size_t split = 0;               // frames[0..split) were decoded before the concurrent phase
 };
 
 W& quietW()
@@ -243,10 +248,115 @@ void bodyBuild(int, void* a)
     A.digest = h;
 }
 
+// ---- hand-over pair ----------------------------------------------------------------------------------------------------
+// Packets a decoder has returned are values owned by the caller: another thread may read, copy, feed them to its own Status /
+// Encoder and destroy them while the decoder's owner goes on decoding. deccont = the decoder's owner continuing, consume = the
+// thread that was given the packets returned so far.
+void prepHand(Arg& A)
+{
+    ref::FrameHdr fh;
+    fh.device = (uint16_t) A.u; fh.stream = 9; fh.msgType = ref::MT_DATA; fh.seq = 30;
+    auto can = [&](unsigned k) {
+        ref::CanF c;
+        c.idword = 0x300 + A.u + k; c.dataLen = 8; c.dlc = 8; c.data = patt(8, A.u + k);
+        return ref::mkMsg(ref::PT_CAN, ref::canPayload(c), 0, A.u + k, A.u);
+    };
+    // before the hand-over: 2 frames with 2 unsegmented messages each, a status frame, the first segment of a message
+    for (unsigned k = 0; k < 2; ++k)
+    {
+        fh.seq++;
+        A.frames.push_back(ref::buildFrame(fh, {can(2 * k), can(2 * k + 1)}));
+    }
+    {
+        ref::FrameHdr sh = fh;
+        sh.msgType = ref::MT_STATUS; sh.seq = 60;
+        ref::CmF cmf;
+        cmf.uptime = A.u;
+        cmf.s[0] = ref::strSection("handover" + std::to_string(A.u));
+        for (int i = 1; i < 4; ++i)
+            cmf.s[i] = ref::strSection("y");
+        ref::IfF iff;
+        iff.ifid = A.u; iff.streamDeclared = 2; iff.streams = {3, 4};
+        A.frames.push_back(ref::buildFrame(sh, {ref::mkMsg(ref::PT_CM, ref::cmPayload(cmf), 0, A.u + 30, A.u), ref::mkMsg(ref::PT_IF, ref::ifPayload(iff), 0, A.u + 31, A.u)}));
+    }
+    ref::EthF e;
+    e.dataLen = 24; e.data = patt(24, A.u + 7);
+    Bytes eth = ref::ethPayload(e);
+    fh.seq = 70;
+    A.frames.push_back(ref::buildFrame(fh, {ref::mkMsg(ref::PT_ETH, Bytes(eth.begin(), eth.begin() + 10), (uint8_t) (1 << 2), A.u + 40, A.u)}));
+    A.split = A.frames.size();
+    // after the hand-over: the rest of the segmented message, then 3 more aggregated frames
+    fh.seq = 71;
+    A.frames.push_back(ref::buildFrame(fh, {ref::mkMsg(ref::PT_ETH, Bytes(eth.begin() + 10, eth.begin() + 20), (uint8_t) (2 << 2), A.u + 40, A.u)}));
+    fh.seq = 72;
+    A.frames.push_back(ref::buildFrame(fh, {ref::mkMsg(ref::PT_ETH, Bytes(eth.begin() + 20, eth.end()), (uint8_t) (3 << 2), A.u + 40, A.u)}));
+    for (unsigned k = 10; k < 13; ++k)
+    {
+        fh.seq++;
+        A.frames.push_back(ref::buildFrame(fh, {can(2 * k), can(2 * k + 1)}));
+    }
+}
+
+// (re)builds the decoder and the packets it has returned so far; the packets go to `to` (the consumer, or the decoder's own Arg
+// when no consumer takes part, where they simply stay alive)
+void handOver(Arg& producer, Arg& to)
+{
+    to.held.clear();
+    producer.dec = std::make_unique<Decoder>();
+    std::vector<std::shared_ptr<Packet>> got;
+    for (size_t i = 0; i < producer.split; ++i)
+        for (auto& p : producer.dec->decode(producer.frames[i].data(), producer.frames[i].size()))
+            got.push_back(std::move(p));
+    to.held = std::move(got);
+}
+
+void bodyDecCont(int, void* a)
+{
+    Arg& A = *static_cast<Arg*>(a);
+    uint64_t h = 6;
+    for (size_t i = A.split; i < A.frames.size(); ++i)
+    {
+        auto pk = A.dec->decode(A.frames[i].data(), A.frames[i].size());
+        h = mc::mix(h, pk.size());
+        for (auto& p : pk)
+            h = mc::mix(h, digestPacket(*p));
+        pk.clear();   // the owner drops its own packets at once: the next call may recycle whatever the decoder keeps
+        API_POINT();
+    }
+    A.digest = h;
+}
+
+void bodyConsume(int, void* a)
+{
+    Arg& A = *static_cast<Arg*>(a);
+    uint64_t h = 7;
+    Status st;
+    Encoder e;
+    e.setDeviceId((uint16_t) A.u);
+    for (auto& sp : A.held)
+    {
+        if (!sp)
+            continue;
+        h = mc::mix(h, digestPacket(*sp));
+        Packet copy(*sp);
+        st.update(*sp);
+        auto fr = e.encode(copy, DataContext{0, 1500});
+        for (auto& f : fr)
+            h = mc::fnv(f.data(), f.size(), h);
+        h = mc::mix(h, digestPacket(*sp));   // still the same while the decoder works on
+        sp.reset();                          // last reference: the packet dies on THIS thread
+        API_POINT();
+    }
+    for (size_t i = 0; i < st.getDeviceStatusCount(); ++i)
+        h = mc::mix(h, digestPacket(st.getDeviceStatus(i).getPacket()));
+    A.digest = h;
+}
+
 using BodyFn = void (*)(int, void*);
 static void soloDigestsInChild(std::vector<Arg>& solo);
-const char* kBodyName[5] = {"enc", "dec", "tecmp", "status", "build"};
-BodyFn kBody[5] = {bodyEnc, bodyDec, bodyTecmp, bodyStatus, bodyBuild};
+constexpr int NKIND = 7;
+const char* kBodyName[NKIND] = {"enc", "dec", "tecmp", "status", "build", "deccont", "consume"};
+BodyFn kBody[NKIND] = {bodyEnc, bodyDec, bodyTecmp, bodyStatus, bodyBuild, bodyDecCont, bodyConsume};
 
 void prep(Arg& A)
 {
@@ -255,11 +365,39 @@ void prep(Arg& A)
         prepDec(A);
     if (A.kind == 2)
         prepTecmp(A);
+    if (A.kind == 5 || A.kind == 6)
+        prepHand(A);
+}
+
+// State that a body uses up (handed-over packets, the decoder that produced them) is rebuilt before EVERY execution, on the
+// calling thread: the hand-over happens before the threads start. A consumer takes the packets of the first producer of the
+// set; without one it uses a decoder of its own (which then stays idle).
+void reprep(std::vector<Arg>& args)
+{
+    Arg* producer = nullptr;
+    for (auto& a : args)
+        if (a.kind == 5 && !producer)
+            producer = &a;
+    bool taken = false;
+    for (auto& a : args)
+        if (a.kind == 6)
+        {
+            if (producer && !taken)
+            {
+                handOver(*producer, a);
+                taken = true;
+            }
+            else
+                handOver(a, a);
+        }
+    for (auto& a : args)
+        if (a.kind == 5 && !(a.dec && &a == producer && taken))
+            handOver(a, a);
 }
 
 int kindOf(const std::string& n)
 {
-    for (int i = 0; i < 5; ++i)
+    for (int i = 0; i < NKIND; ++i)
         if (n == kBodyName[i])
             return i;
     return -1;
@@ -277,6 +415,7 @@ static void soloDigestsInChild(std::vector<Arg>& solo)
     if (pid == 0)
     {
         close(fd[0]);
+        reprep(solo);
         for (auto& a : solo)
         {
             kBody[a.kind](0, &a);
@@ -337,6 +476,31 @@ int main(int argc, char** argv)
         for (auto& t : th)
             t.join();
         runs += set.size() * (uint64_t) iters;
+    }
+    // the hand-over pair: packets returned by a decoder are consumed and destroyed by another thread while the decoder goes on
+    {
+        std::vector<Arg> solo(2), args(2);
+        for (int i = 0; i < 2; ++i)
+        {
+            solo[i].kind = args[i].kind = 5 + i;
+            solo[i].u = args[i].u = (uint32_t) (17 + 40 * i);
+            prep(solo[i]);
+            prep(args[i]);
+        }
+        soloDigestsInChild(solo);
+        for (int it = 0; it < iters; ++it)
+        {
+            reprep(args);
+            std::thread t0([&] { bodyDecCont(0, &args[0]); });
+            std::thread t1([&] { bodyConsume(1, &args[1]); });
+            t0.join();
+            t1.join();
+            for (int i = 0; i < 2; ++i)
+                if (args[i].digest != solo[i].digest)
+                    ++bad;
+            runs += 2;
+        }
+        sets.push_back({5, 6});
     }
     printf("FREERUN sets=%zu body_runs=%llu digest_mismatches=%d\n", sets.size(), (unsigned long long) runs, bad);
     return bad ? 1 : 0;
@@ -401,6 +565,9 @@ int main(int argc, char** argv)
         prep(args[i]);
     }
     soloDigestsInChild(solo);   // alone, in another process, before any exploration
+    bool needReprep = false;
+    for (int k : kinds)
+        needReprep = needReprep || k >= 5;
     srt::init(n);
     std::vector<srt::Body> bodies;
     std::vector<void*> argp;
@@ -419,6 +586,8 @@ int main(int argc, char** argv)
     auto execute = [&](const Sched& s, srt::ExecResult& r) {
         for (int i = 0; i < n; ++i)
             args[i].digest = 0;
+        if (needReprep)
+            reprep(args);
         if (progressFd >= 0)
         {
             std::string cs = showSched(kinds, level, s);
